@@ -1,1 +1,7 @@
 # add(pid, category, text, design_ref, note, technique, engine)
+add("C01", "model_checking",
+    "TLC exhaustively checks the Record.tla design (fragmentation, FIFO wire, buffer slicing, key updates, adversary) for DeliveredIsPrefix/NoOverLimit/FragSound; every record-level event of live connections for every negotiable suite x version x EtM x record_size_limit x recordSize x TLS1.3 padding is validated by TLC against RecordTrace.tla with all invariants evaluated in every state. Exhaustive for the abstract design within small constants; sampled (boundary grid) for payload lengths.",
+    "DESIGN.md section 5 C01, section 3.1",
+    "Trusted: TLC, harness stepping loop and in-memory wire, reference byte stream. Limits are derived by the spec from the two settings (RFC 8449), not read from the code.",
+    "TLA+ spec (Record.tla) model-checked by TLC + TLC trace validation of live two-endpoint connections",
+    "tla-record")
